@@ -600,7 +600,7 @@ def o_exception_types(ctx):
                 cres = impl.compile_doc("u", res["ok"], res["idc"])
                 if "pickles" not in cres:
                     return {"what": "Compiler.compile failed on a parser-produced document: %r" % (cres,)}
-        ev = impl.events(True, True, True, [["u", src]])
+        ev = impl.events(True, True, True, False, [["u", src]])
         if "envelopes" not in ev:
             return {"what": "GherkinEvents.enum raised: %r" % (ev,)}
         for env in ev["envelopes"]:
